@@ -16,57 +16,71 @@ Notation effb := (effb p).
 Notation sigb := (sigb p).
 Notation WF := (WF p).
 Notation Inv := (Inv p).
-Notation InvW := (InvW p).
 Notation Lcur := (Lcur p).
 Notation Lclean := (Lclean p).
-Notation MemoOKc := (MemoOKc p).
-Notation MemoOKv := (MemoOKv p).
+Notation Rest := (Rest p).
+Notation Frame := (Frame p).
 Notation cur := (cur p).
 Notation PullRel := (PullRel p).
 Notation RSpec := (RSpec p).
 Notation USpec := (USpec p).
+Notation queue_ok := (queue_ok p).
 
-(* ---------------------------------------------------------------- same views *)
+(* ---------------------------------------------------------------- general transfer *)
 Lemma WF_getn_eq s s' :
   nlen s' = nlen s -> (forall i, getn s' i = getn s i) -> WF s -> WF s'.
 Proof.
   intros Hl He W. apply (WF_same_edges p s s'); auto. intros i. rewrite He. auto.
 Qed.
 
+Lemma queue_transfer s s' :
+  ready s' = ready s -> (forall e, qview_eq (getn s e) (getn s' e)) ->
+  (forall e, queue_ok s e) -> forall e, queue_ok s' e.
+Proof.
+  intros Hr Hq Q e. unfold GraphInvariant.queue_ok in *. rewrite Hr.
+  eapply queue_ok_qview; eauto.
+Qed.
+
+(* all nodes off the stack keep their view, values and Clean marks are kept, the frames are
+   given *)
+Lemma Inv_transfer stk t t0 s s' :
+  WF s' -> err s' = false -> nocause s' = 0 -> ready s' = ready s ->
+  (forall i, ~ In i stk -> nview_eq (getn s i) (getn s' i)) ->
+  (forall e, qview_eq (getn s e) (getn s' e)) ->
+  (forall j, cur s' j = cur s j) ->
+  (forall j, memob j = true -> st (getn s j) = Clean -> st (getn s' j) = Clean) ->
+  (forall k, In k stk -> Frame t s' k) ->
+  Inv stk t0 s -> Inv stk t s'.
+Proof.
+  intros W' E' N' Hr V Q Hc Hcl F I. split; auto.
+  - intros i Hi. apply (Rest_ext p s s' i (V i Hi)); auto. apply I; auto.
+  - apply (queue_transfer s s' Hr Q). apply I.
+Qed.
+
 Lemma Inv_views stk t s s' :
-  WF s' -> err s' = false ->
-  (forall i, view_eq (getn s i) (getn s' i)) ->
+  WF s' -> err s' = false -> nocause s' = 0 -> ready s' = ready s ->
+  (forall i, nview_eq (getn s i) (getn s' i)) ->
   Inv stk t s -> Inv stk t s'.
 Proof.
-  intros W' E' V [I Iv].
-  assert (Vs : forall i, sval (getn s' i) = sval (getn s i)) by (intros i; apply V).
-  assert (Vst : forall i, st (getn s' i) = st (getn s i)) by (intros i; apply V).
-  assert (Vc : forall i, cache (getn s' i) = cache (getn s i)) by (intros i; apply V).
-  assert (Vr : forall i, rlog (getn s' i) = rlog (getn s i)) by (intros i; apply V).
-  assert (Vsr : forall i, srcs (getn s' i) = srcs (getn s i)) by (intros i; apply V).
-  assert (Vcur : forall j, cur s' j = cur s j) by (intros j; apply cur_view; auto).
-  split; [split|].
-  - exact W'.
-  - exact E'.
-  - intros i Hi. eapply L1_ext; eauto. apply I; auto.
-  - intros i Hm Hi. eapply MemoOKc_ext; eauto; [|apply I; auto].
-    intros j v _ _ Hc. rewrite Vst; auto.
-  - intros k Hk. eapply Lcur_ext; eauto. apply I; auto.
-  - intros k Hk. eapply Lclean_ext; eauto; [|apply I; auto].
-    intros j v _ _ Hc. rewrite Vst; auto.
-  - intros k x Hk. rewrite Vsr, Vr. apply I; auto.
-  - apply I.
-  - apply I.
-  - intros k Hk Hm. rewrite Vst. eapply inv_run_nc; eauto.
-  - intros i Hm Hi. eapply MemoOKv_ext; eauto.
+  intros W' E' N' Hr V I.
+  assert (Hcur : forall j, cur s' j = cur s j) by (intros j; apply cur_view; apply V).
+  assert (Hst : forall j, st (getn s' j) = st (getn s j)) by (intros j; apply V).
+  apply (Inv_transfer stk t t s s'); auto.
+  - intros e. apply nview_qview. apply V.
+  - intros j _ Hc. rewrite Hst; auto.
+  - intros k Hk. assert (Hed : edirty (getn s' k) = edirty (getn s k)) by apply V.
+    apply (Frame_ext p t s s' k); try apply V; auto.
+    + intros _. rewrite Hst; auto.
+    + intros _. rewrite Hed; auto.
+    + intros j v _ _ Hc. rewrite Hst; auto.
+    + apply I; auto.
 Qed.
 
 Lemma Inv_emit stk t e s : Inv stk t s -> Inv stk t (emit e s).
 Proof.
-  intros I. eapply Inv_views; eauto.
+  intros I. apply (Inv_views stk t s (emit e s)); auto; try apply I.
   - eapply WF_getn_eq; [| |apply I]; auto.
-  - apply I.
-  - intros i. apply view_eq_refl.
+  - intros i. apply nview_eq_refl.
 Qed.
 
 Lemma PullRel_emit b stk ex e s : PullRel b stk ex s (emit e s).
@@ -74,9 +88,11 @@ Proof. split; intros; rewrite ?getn_emit; auto using st_le_refl; intuition auto 
 
 Lemma Inv_lower stk t t' s : t' <= t -> Inv stk t s -> Inv stk t' s.
 Proof.
-  intros Ht [I Iv]. split; auto. destruct I. split; auto.
-  - intros k x Hk Hx. destruct (inv_run_src k x Hk Hx); auto. right; lia.
-  - intros k Hk. specialize (inv_run_ge k Hk). lia.
+  intros Ht I. split; try apply I.
+  intros k Hk. destruct (inv_frame _ _ _ _ I k Hk) as (F1&F2&F3&F4&F5&F6&F7).
+  split; [exact F1|]. split; [exact F2|].
+  split; [intros x Hx; destruct (F3 x Hx); [left; auto|right; lia]|].
+  split; [lia|]. split; [exact F5|]. split; [exact F6|exact F7].
 Qed.
 
 Lemma Inv_raise stk t t' s :
@@ -84,7 +100,12 @@ Lemma Inv_raise stk t t' s :
   (forall k x, In k stk -> In x (srcs (getn s k)) -> In x (tracked_of (rlog (getn s k))) \/ t <= x) ->
   (forall k, In k stk -> t <= k) ->
   Inv stk t s.
-Proof. intros [I Iv] H1 H2. split; auto. destruct I. split; auto. Qed.
+Proof.
+  intros I H1 H2. split; try apply I.
+  intros k Hk. destruct (inv_frame _ _ _ _ I k Hk) as (F1&F2&F3&F4&F5&F6&F7).
+  split; [exact F1|]. split; [exact F2|]. split; [intros x; apply H1; auto|].
+  split; [apply H2; auto|]. split; [exact F5|]. split; [exact F6|exact F7].
+Qed.
 
 (* ---------------------------------------------------------------- log_read *)
 Lemma log_read_getn c j v t il s k :
@@ -113,7 +134,7 @@ Lemma log_read_other_fields c j v t il s k :
   sval n' = sval n /\ subs n' = subs n /\ st n' = st n /\ cache n' = cache n /\ srcs n' = srcs n /\
   since n' = since n /\ edirty n' = edirty n /\ eflag n' = eflag n /\ ereg n' = ereg n /\
   efirst n' = efirst n /\ epaused n' = epaused n /\ ealive n' = ealive n /\ edone n' = edone n /\
-  emissed n' = emissed n.
+  emissed n' = emissed n /\ epoll n' = epoll n.
 Proof.
   cbv zeta. rewrite log_read_getn. destruct (fst c); [|intuition].
   destruct (_ && _ && _); nsimpl; intuition.
@@ -126,6 +147,53 @@ Proof.
   - intros i. destruct (log_read_other_fields c j v t il s i) as (_&H1&_&_&H2&_). auto.
 Qed.
 
+(* the only thing a log entry changes: the log of the running body *)
+Lemma log_read_rlog c j v t il s k :
+  rlog (getn (log_read c j v t il s) k) = rlog (getn s k) \/
+  (fst c = Some k /\ rlog (getn (log_read c j v t il s) k) = rlog (getn s k) ++ [(j, v, t)]).
+Proof.
+  rewrite log_read_getn. destruct (fst c) as [o|]; auto.
+  destruct (il && Nat.eqb o k && Nat.ltb o (nlen s)) eqn:E; auto.
+  right. apply andb_prop in E as [E _]. apply andb_prop in E as [_ E]. apply Nat.eqb_eq in E. subst.
+  nsimpl. auto.
+Qed.
+
+Lemma who_on_stack stk c w : ctx_ok stk c -> fst c = Some w -> In w stk.
+Proof. unfold ctx_ok. intros C Hw. rewrite Hw in C. destruct C as [tl ->]. left; auto. Qed.
+
+Lemma log_read_nview stk c j v t il s i :
+  ctx_ok stk c -> ~ In i stk -> nview_eq (getn s i) (getn (log_read c j v t il s) i).
+Proof.
+  intros C Hi. destruct (log_read_other_fields c j v t il s i) as (?&?&?&?&?&?&?&?&?&?&?&?&?&?&?).
+  unfold nview_eq. repeat split; auto.
+  destruct (log_read_rlog c j v t il s i) as [?|[Hc _]]; auto.
+  exfalso. apply Hi. eapply who_on_stack; eauto.
+Qed.
+
+Lemma log_read_qview c j v t il s e : qview_eq (getn s e) (getn (log_read c j v t il s) e).
+Proof.
+  destruct (log_read_other_fields c j v t il s e) as (?&?&?&?&?&?&?&?&?&?&?&?&?&?&?).
+  unfold qview_eq. repeat split; auto.
+Qed.
+
+Lemma log_read_PullRel stk b c j v t il s :
+  ctx_ok stk c -> PullRel b stk (fst c) s (log_read c j v t il s).
+Proof.
+  intros C. set (s' := log_read c j v t il s).
+  assert (Hf := fun k => log_read_other_fields c j v t il s k). cbv zeta in Hf. fold s' in Hf.
+  split.
+  - apply log_read_misc.
+  - intros i. apply Hf.
+  - intros i Hm Hi Hc. destruct (Hf i) as (_&_&->&->&->&_). split; auto. split; auto. split; auto.
+    destruct (log_read_rlog c j v t il s i) as [?|[Hc' _]]; auto.
+    exfalso. apply Hi. eapply who_on_stack; eauto.
+  - intros y Hy He. destruct (Hf y) as (_&_&_&_&->&_). split; auto.
+    destruct (log_read_rlog c j v t il s y) as [?|[Hc' _]]; auto. congruence.
+  - intros y Hy. destruct (Hf y) as (_&->&->&->&_). split; auto. split; auto using st_le_refl.
+  - intros i. destruct (Hf i) as (_&_&_&_&_&_&_&_&_&?&?&?&?&?&?). repeat split; auto.
+  - apply log_read_misc.
+Qed.
+
 (* a log entry that is not tracked, or not kept in the ghost log, changes no clause *)
 Lemma Inv_log_untracked stk t c j v il s :
   Inv stk t s -> ctx_ok stk c -> TopOK c s ->
@@ -134,60 +202,34 @@ Lemma Inv_log_untracked stk t c j v il s :
 Proof.
   intros I C T. cbv zeta.
   set (s' := log_read c j v false il s).
-  assert (Hf : forall k, sval (getn s' k) = sval (getn s k) /\ st (getn s' k) = st (getn s k) /\
-                         cache (getn s' k) = cache (getn s k) /\ srcs (getn s' k) = srcs (getn s k) /\
-                         subs (getn s' k) = subs (getn s k)).
-  { intros k. destruct (log_read_other_fields c j v false il s k) as (?&?&?&?&?&_). intuition. }
-  assert (Hr : forall k, rlog (getn s' k) = rlog (getn s k) \/
-                         (fst c = Some k /\ rlog (getn s' k) = rlog (getn s k) ++ [(j, v, false)])).
-  { intros k. unfold s'. rewrite log_read_getn. destruct (fst c) as [o|]; auto.
-    destruct (il && Nat.eqb o k && Nat.ltb o (nlen s)) eqn:E; auto.
-    right. apply andb_prop in E as [E _]. apply andb_prop in E as [_ E]. apply Nat.eqb_eq in E. subst.
-    nsimpl. auto. }
+  assert (Hf := fun k => log_read_other_fields c j v false il s k). cbv zeta in Hf. fold s' in Hf.
+  assert (Hr := fun k => log_read_rlog c j v false il s k). fold s' in Hr.
   assert (Htr : forall k, tracked_of (rlog (getn s' k)) = tracked_of (rlog (getn s k))).
   { intros k. destruct (Hr k) as [->|[_ ->]]; auto. rewrite tracked_of_app. cbn. apply app_nil_r. }
   assert (Hin : forall k x w, In (x, w, true) (rlog (getn s' k)) -> In (x, w, true) (rlog (getn s k))).
   { intros k x w. destruct (Hr k) as [->|[_ ->]]; auto. rewrite in_app_iff. intros [H|[H|[]]]; auto.
     discriminate. }
   assert (Hcur : forall x, cur s' x = cur s x) by (intros x; apply cur_view; apply Hf).
-  destruct I as [I Iv].
+  assert (Hst : forall x, st (getn s' x) = st (getn s x)) by (intros x; apply Hf).
+  assert (Hsr : forall x, srcs (getn s' x) = srcs (getn s x)) by (intros x; apply Hf).
+  destruct (log_read_misc c j v false il s) as (Ml & Me & Mr & Mh & Mn). fold s' in Ml, Me, Mr, Mh, Mn.
   split; [|split].
-  - split; [split|].
+  - apply (Inv_transfer stk t t s s'); auto.
     + apply WF_log_read. apply I.
-    + unfold s'. rewrite (proj1 (proj2 (log_read_misc c j v false il s))). apply I.
-    + intros i Hi. unfold L1. destruct (Hf i) as (_&_&_&->&_). rewrite Htr. apply I; auto.
-    + intros i Hm Hi. pose proof (inv_memo_c _ _ _ _ I i Hm Hi) as HM.
-      assert (Hri : rlog (getn s' i) = rlog (getn s i)).
-      { destruct (Hr i) as [?|[Hc _]]; auto. exfalso. apply Hi.
-        unfold ctx_ok in C. rewrite Hc in C. destruct C as [tl ->]. left; auto. }
-      apply (MemoOKc_ext p s s' i (proj1 (proj2 (Hf i))) (proj1 (proj2 (proj2 (Hf i)))) Hri); [|exact HM].
-      intros x w _ _ Hc. destruct (Hf x) as (_&->&_). auto.
-    + intros k Hk x w Hx. rewrite Hcur. eapply inv_run_cur; eauto.
-    + intros k Hk x w Hx Hm. destruct (Hf x) as (_&->&_). eapply inv_run_clean; eauto.
-    + intros k x Hk. destruct (Hf k) as (_&_&_&->&_). rewrite Htr. apply I; auto.
-    + apply I.
-    + apply I.
-    + intros k Hk Hm. destruct (Hf k) as (_&->&_). eapply inv_run_nc; eauto.
-    + intros i Hm Hi.
-      assert (Hri : rlog (getn s' i) = rlog (getn s i)).
-      { destruct (Hr i) as [?|[Hc _]]; auto. exfalso. apply Hi.
-        unfold ctx_ok in C. rewrite Hc in C. destruct C as [tl ->]. left; auto. }
-      apply (MemoOKv_ext p s s' i (proj1 (proj2 (Hf i))) (proj1 (proj2 (proj2 (Hf i)))) Hri); [|apply Iv; auto].
-      intros x w _. apply Hcur.
+    + rewrite Me. apply I.
+    + rewrite Mn. apply I.
+    + intros i Hi. apply (log_read_nview stk); auto.
+    + intros e. apply log_read_qview.
+    + intros x _ Hc. rewrite Hst; auto.
+    + intros k Hk. destruct (inv_frame _ _ _ _ I k Hk) as (F1&F2&F3&F4&F5&F6&F7).
+      split; [intros x w Hx; rewrite Hcur; apply (F1 x w); auto|].
+      split; [intros x w Hx Hm; rewrite Hst; apply (F2 x w); auto|].
+      split; [intros x; rewrite Hsr, Htr; auto|]. split; [exact F4|]. split; [exact F5|].
+      split; [intros Hm; rewrite Hst; auto|].
+      intros He. destruct (Hf k) as (_&_&_&_&_&_&->&_). auto.
   - unfold TopOK in *. destruct (fst c) as [w|]; auto. unfold L1 in *.
-    destruct (Hf w) as (_&_&_&->&_). rewrite Htr. auto.
-  - split.
-    + apply log_read_misc.
-    + intros i. apply Hf.
-    + intros i Hm Hi Hc. destruct (Hf i) as (_&->&->&->&_). split; auto. split; auto. split; auto.
-      destruct (Hr i) as [?|[Hc' _]]; auto. exfalso. apply Hi.
-      unfold ctx_ok in C. rewrite Hc' in C. destruct C as [tl ->]. left; auto.
-    + intros y Hy He. destruct (Hf y) as (_&_&_&->&_). split; auto.
-      destruct (Hr y) as [?|[Hc' _]]; auto. congruence.
-    + intros y Hy. destruct (Hf y) as (_&->&->&_&->). split; auto. split; auto using st_le_refl.
-    + intros i. destruct (log_read_other_fields c j v false il s i) as (_&_&_&_&_&_&_&_&_&?&?&?&?&?).
-      intuition.
-    + apply log_read_misc.
+    rewrite Hsr, Htr. auto.
+  - apply log_read_PullRel; auto.
 Qed.
 
 (* ---------------------------------------------------------------- a tracked read: track ... log *)
@@ -203,11 +245,9 @@ Lemma Inv_track stk t c o j s :
 Proof.
   intros I C Ho T Hjt. cbv zeta.
   destruct (ctx_ok_obs stk c o C Ho) as [Hw Hin].
-  destruct I as [I Iv].
-  assert (Hto : t <= o) by (eapply inv_run_ge; eauto).
+  destruct (inv_frame _ _ _ _ I o Hin) as (_&_&_&Hto&Hol&_).
   assert (Hlt : j < o) by lia.
-  assert (Hor : o < nlen s).
-  { rewrite (wf_len p s (inv_wf _ _ _ _ I)). eapply inv_run_range; eauto. }
+  assert (Hor : o < nlen s) by (rewrite (wf_len p s (inv_wf _ _ _ _ I)); auto).
   set (s1 := track c j s).
   assert (Hrest := fun k => track_rest c o j s Ho Hlt Hor k). cbv zeta in Hrest. fold s1 in Hrest.
   assert (Hsv : forall k, sval (getn s1 k) = sval (getn s k)) by (intros k; apply Hrest).
@@ -220,25 +260,24 @@ Proof.
   { intros k Hk. rewrite Hsr. destruct (Nat.eqb_spec k o); congruence. }
   assert (Hcur : forall x, cur s1 x = cur s x) by (intros x; apply cur_view; auto).
   assert (Hno : forall i, ~ In i stk -> i <> o) by (intros i Hi ->; auto).
+  destruct (track_misc c o j s Ho) as (Me & Mr & _ & Mn & Mh). fold s1 in Me, Mr, Mn, Mh.
   split; [|split; [|split; [|split; [|split]]]]; auto.
-  - split; [split|].
+  - apply (Inv_transfer stk j t s s1); auto.
     + apply (WF_track p c o j s Ho Hlt Hor). apply I.
-    + unfold s1. rewrite (proj1 (track_misc c o j s Ho)). apply I.
-    + intros i Hi. apply (L1_ext s s1 i (Hrl i) (Hsro i (Hno i Hi))). apply I; auto.
-    + intros i Hm Hi. apply (MemoOKc_ext p s s1 i (Hst i) (Hca i) (Hrl i)); [|apply I; auto].
-      intros x w _ _ Hc. rewrite Hst; auto.
-    + intros k Hk. apply (Lcur_ext p s s1 k (Hrl k)); [|apply I; auto]. intros x w _; apply Hcur.
-    + intros k Hk. apply (Lclean_ext p s s1 k (Hrl k)); [|apply I; auto].
-      intros x w _ _ Hc. rewrite Hst; auto.
-    + intros k x Hk. rewrite Hrl, Hsr. destruct (Nat.eqb_spec k o) as [->|Hko].
+    + rewrite Me. apply I.
+    + rewrite Mn. apply I.
+    + intros i Hi. specialize (Hrest i). unfold nview_eq. rewrite (Hsro i (Hno i Hi)). intuition.
+    + intros e. specialize (Hrest e). unfold qview_eq. intuition.
+    + intros x _ Hc. rewrite Hst; auto.
+    + intros k Hk. destruct (inv_frame _ _ _ _ I k Hk) as (F1&F2&F3&F4&F5&F6&F7).
+      split; [intros x w Hx; rewrite Hcur; rewrite Hrl in Hx; apply (F1 x w); auto|].
+      split; [intros x w Hx Hm; rewrite Hst; rewrite Hrl in Hx; apply (F2 x w); auto|].
+      split; [|split; [lia|split; [auto|split; [intros Hm; rewrite Hst; auto|
+                 intros He; destruct (Hrest k) as (_&_&_&_&_&->&_); auto]]]].
+      intros x. rewrite Hrl, Hsr. destruct (Nat.eqb_spec k o) as [->|Hko].
       * rewrite in_app_iff. intros [Hx|[<-|[]]]; [|right; lia].
-        destruct (inv_run_src _ _ _ _ I o x Hk Hx); auto. right; lia.
-      * intros Hx. destruct (inv_run_src _ _ _ _ I k x Hk Hx); auto. right; lia.
-    + intros k Hk. pose proof (inv_run_ge _ _ _ _ I k Hk). lia.
-    + apply I.
-    + intros k Hk Hm. rewrite Hst. eapply inv_run_nc; eauto.
-    + intros i Hm Hi. apply (MemoOKv_ext p s s1 i (Hst i) (Hca i) (Hrl i)); [|apply Iv; auto].
-      intros x w _; apply Hcur.
+        destruct (F3 x Hx); auto. right; lia.
+      * intros Hx. destruct (F3 x Hx); auto. right; lia.
   - rewrite Hrl, Hsr, Nat.eqb_refl. unfold TopOK in T. rewrite Hw in T. unfold L1 in T. rewrite T. reflexivity.
   - split.
     + apply (track_nlen c o j s Ho).
@@ -248,13 +287,13 @@ Proof.
     + intros y Hy. rewrite Hca, Hst, Hsu. split; auto. split; auto using st_le_refl.
       destruct (Nat.eqb_spec y j); auto. lia.
     + intros i. specialize (Hrest i). intuition.
-    + apply (track_misc c o j s Ho).
+    + exact Mh.
   - rewrite Hsu, Nat.eqb_refl. reflexivity.
 Qed.
 
 (* the log entry of a tracked read completes the pending source *)
 Lemma Inv_log_tracked stk t c o j v s :
-  Inv stk j s -> fst c = Some o -> In o stk ->
+  Inv stk j s -> ctx_ok stk c -> fst c = Some o ->
   (forall k x, In k stk -> k <> o -> In x (srcs (getn s k)) ->
                In x (tracked_of (rlog (getn s k))) \/ t <= x) ->
   (forall k, In k stk -> t <= k) ->
@@ -263,14 +302,12 @@ Lemma Inv_log_tracked stk t c o j v s :
   let s' := log_read c j v true true s in
   Inv stk t s' /\ TopOK c s' /\ PullRel (S j) stk (Some o) s s'.
 Proof.
-  intros [I Iv] Hw Hin Hsrc Hge Hpend Hv Hcl. cbv zeta.
+  intros I C Hw Hsrc Hge Hpend Hv Hcl. cbv zeta.
+  assert (Hin : In o stk) by (eapply who_on_stack; eauto).
   set (s' := log_read c j v true true s).
-  assert (Hor : o < nlen s).
-  { rewrite (wf_len p s (inv_wf _ _ _ _ I)). eapply inv_run_range; eauto. }
-  assert (Hf : forall k, sval (getn s' k) = sval (getn s k) /\ st (getn s' k) = st (getn s k) /\
-                         cache (getn s' k) = cache (getn s k) /\ srcs (getn s' k) = srcs (getn s k) /\
-                         subs (getn s' k) = subs (getn s k)).
-  { intros k. destruct (log_read_other_fields c j v true true s k) as (?&?&?&?&?&_). intuition. }
+  destruct (inv_frame _ _ _ _ I o Hin) as (_&_&_&_&Hol&_).
+  assert (Hor : o < nlen s) by (rewrite (wf_len p s (inv_wf _ _ _ _ I)); auto).
+  assert (Hf := fun k => log_read_other_fields c j v true true s k). cbv zeta in Hf. fold s' in Hf.
   assert (Hro : rlog (getn s' o) = rlog (getn s o) ++ [(j, v, true)]).
   { unfold s'. rewrite log_read_getn, Hw. cbn [andb]. rewrite Nat.eqb_refl.
     apply Nat.ltb_lt in Hor. rewrite Hor. reflexivity. }
@@ -278,47 +315,40 @@ Proof.
   { intros k Hk. unfold s'. rewrite log_read_getn, Hw. cbn [andb].
     destruct (Nat.eqb_spec o k); [congruence|]. reflexivity. }
   assert (Hcur : forall x, cur s' x = cur s x) by (intros x; apply cur_view; apply Hf).
-  assert (Hno : forall i, ~ In i stk -> i <> o) by (intros i Hi ->; auto).
-  assert (Hsto : forall k, st (getn s' k) = st (getn s k)) by (intros k; apply Hf).
-  assert (Hca : forall k, cache (getn s' k) = cache (getn s k)) by (intros k; apply Hf).
+  assert (Hst : forall k, st (getn s' k) = st (getn s k)) by (intros k; apply Hf).
   assert (Hsr : forall k, srcs (getn s' k) = srcs (getn s k)) by (intros k; apply Hf).
   assert (HL1o : srcs (getn s' o) = tracked_of (rlog (getn s' o))).
   { rewrite Hsr, Hro, tracked_of_app, Hpend. reflexivity. }
+  destruct (log_read_misc c j v true true s) as (Ml & Me & Mr & Mh & Mn). fold s' in Ml, Me, Mr, Mh, Mn.
   split; [|split].
-  - split; [split|].
+  - apply (Inv_transfer stk t j s s'); auto.
     + apply WF_log_read. apply I.
-    + unfold s'. rewrite (proj1 (proj2 (log_read_misc c j v true true s))). apply I.
-    + intros i Hi. apply (L1_ext s s' i (Hrk i (Hno i Hi)) (Hsr i)). apply I; auto.
-    + intros i Hm Hi. apply (MemoOKc_ext p s s' i (Hsto i) (Hca i) (Hrk i (Hno i Hi))); [|apply I; auto].
-      intros x w _ _ Hc. rewrite Hsto; auto.
-    + intros k Hk x w Hx. rewrite Hcur. destruct (Nat.eq_dec k o) as [->|Hko].
-      * rewrite Hro, in_app_iff in Hx. destruct Hx as [Hx|[Hx|[]]].
-        -- eapply inv_run_cur; eauto.
-        -- inversion Hx; subst. reflexivity.
-      * rewrite Hrk in Hx by auto. eapply inv_run_cur; eauto.
-    + intros k Hk x w Hx Hm. rewrite Hsto. destruct (Nat.eq_dec k o) as [->|Hko].
-      * rewrite Hro, in_app_iff in Hx. destruct Hx as [Hx|[Hx|[]]].
-        -- eapply inv_run_clean; eauto.
-        -- inversion Hx; subst. auto.
-      * rewrite Hrk in Hx by auto. eapply inv_run_clean; eauto.
-    + intros k x Hk Hx. destruct (Nat.eq_dec k o) as [->|Hko].
-      * left. rewrite <- HL1o. exact Hx.
-      * rewrite Hsr in Hx. rewrite Hrk by auto. apply Hsrc; auto.
-    + exact Hge.
-    + apply I.
-    + intros k Hk Hm. rewrite Hsto. eapply inv_run_nc; eauto.
-    + intros i Hm Hi. apply (MemoOKv_ext p s s' i (Hsto i) (Hca i) (Hrk i (Hno i Hi))); [|apply Iv; auto].
-      intros x w _; apply Hcur.
+    + rewrite Me. apply I.
+    + rewrite Mn. apply I.
+    + intros i Hi. apply (log_read_nview stk); auto.
+    + intros e. apply log_read_qview.
+    + intros x _ Hc. rewrite Hst; auto.
+    + intros k Hk. destruct (inv_frame _ _ _ _ I k Hk) as (F1&F2&F3&F4&F5&F6&F7).
+      assert (Hedk : edirty (getn s' k) = edirty (getn s k)) by (destruct (Hf k) as (_&_&_&_&_&_&->&_); auto).
+      destruct (Nat.eq_dec k o) as [->|Hko].
+      * split.
+        { intros x w Hx. rewrite Hcur. rewrite Hro, in_app_iff in Hx. destruct Hx as [Hx|[Hx|[]]].
+          - apply (F1 x w); auto.
+          - inversion Hx; subst. reflexivity. }
+        split.
+        { intros x w Hx Hm. rewrite Hst. rewrite Hro, in_app_iff in Hx. destruct Hx as [Hx|[Hx|[]]].
+          - apply (F2 x w); auto.
+          - inversion Hx; subst. auto. }
+        split; [intros x Hx; left; rewrite <- HL1o; exact Hx|].
+        split; [auto|]. split; [auto|]. split; [intros Hm; rewrite Hst; auto|].
+        intros He. rewrite Hedk. auto.
+      * split; [intros x w Hx; rewrite Hcur; rewrite Hrk in Hx by auto; apply (F1 x w); auto|].
+        split; [intros x w Hx Hm; rewrite Hst; rewrite Hrk in Hx by auto; apply (F2 x w); auto|].
+        split; [intros x Hx; rewrite Hsr in Hx; rewrite Hrk by auto; apply Hsrc; auto|].
+        split; [auto|]. split; [auto|]. split; [intros Hm; rewrite Hst; auto|].
+        intros He. rewrite Hedk. auto.
   - unfold TopOK. rewrite Hw. exact HL1o.
-  - split.
-    + apply (proj1 (log_read_misc c j v true true s)).
-    + intros i. apply Hf.
-    + intros i Hm Hi Hc. rewrite Hsto, Hca, Hsr, (Hrk i (Hno i Hi)). auto.
-    + intros y Hy He. split; [|apply Hsr]. apply Hrk. intros ->. apply He; congruence.
-    + intros y Hy. destruct (Hf y) as (_&->&->&_&->). split; auto. split; auto using st_le_refl.
-    + intros i. destruct (log_read_other_fields c j v true true s i) as (_&_&_&_&_&_&_&_&_&?&?&?&?&?).
-      intuition.
-    + apply (log_read_misc c j v true true s).
+  - rewrite <- Hw. apply log_read_PullRel; auto.
 Qed.
 
 (* ---------------------------------------------------------------- eval, for a pure body *)
